@@ -17,6 +17,17 @@ def special_docs(rng):
         r += [N("GET /a", [N("200 any")])]
         out.append(r)
     out.append(base() + [N("GET /a", [N("PASTE @resp")]), N("MACRO @resp", [N("200 any"), N("404 any")], explicit=True)])
+    # a PASTE written directly after a directive that cannot hold a PASTE itself but can hold what the
+    # macro brings (TAG, JSON-RPC Method): the body is resolved from the same context as in-place text
+    dsc = lambda: N("MACRO @dsc", [N("Description\n  shared words")], explicit=True)
+    out.append(base() + [N("TAG @cats // Cats", [N("PASTE @dsc")]), N("GET /cats", [N("Tags @cats"), N("200 any")]), dsc()])
+    out.append(base() + [dsc(), N("TAG @cats", [N("PASTE @dsc")]), N("TAG @dogs // Dogs", [N("PASTE @dsc")]), N("GET /cats", [N("Tags @cats @dogs"), N("200 any")])])
+    out.append(base() + [N("URL /rpc", [N("Protocol json-rpc-2.0"), N("Method go", [N('Params\n{"p": 1}'), N("PASTE @dsc")]),
+                                        N("Method back", [N('Result\n{"r": 1}'), N("PASTE @dsc")])]), dsc()])
+    out.append(base() + [N("MACRO @outer", [N("PASTE @dsc")], explicit=True), dsc(), N("TAG @deep", [N("PASTE @outer")]),
+                         N("GET /d", [N("Tags @deep"), N("200 any")])])
+    out.append(base() + [dsc(), N("INFO", [N('Title "T"'), N("PASTE @dsc")]), N("GET /i", [N("200 any")])])
+    out.append(base() + [dsc(), N("GET /m", [N("200 any"), N("PASTE @dsc")]), N("SERVER @s // srv", [N('BaseUrl "https://h/"')])])
     out.append(base() + [N("MACRO @inner", [N("Body any")], explicit=True),
                          N("MACRO @outer", [N("200", [N("PASTE @inner")], explicit=True)], explicit=True),
                          N("GET /a", [N("PASTE @outer")]), N("POST /a", [N("PASTE @outer"), N("Request any")])])
